@@ -5,6 +5,7 @@ import (
 	"go/token"
 	"go/types"
 	"math/big"
+	"strings"
 
 	"golang.org/x/tools/go/ssa"
 )
@@ -148,6 +149,7 @@ func (f *Frame) instr(in ssa.Instruction) {
 	case *ssa.MakeChan:
 		f.define(in, Val{S: f.newObjID(), Sort: "Ptr", GT: in.Type()})
 	case *ssa.Call:
+		f.siteObligs(in)
 		r := f.call(in.Common(), in)
 		if in.Type() != nil {
 			if tup, ok := in.Type().(*types.Tuple); ok && tup.Len() == 0 {
@@ -784,4 +786,37 @@ func (f *Frame) next(in *ssa.Next) {
 	vv := Val{S: app("select", app("select", f.cur.get(vk), m.S), kv.S), Sort: g.sortOf(mt.Elem()), GT: mt.Elem()}
 	g.assume(implies(okv.S, g.typeInv(vv, f.alloc())))
 	f.define(in, Val{Sort: "Tuple", GT: in.Type(), Tuple: []Val{okv, kv, vv}})
+}
+
+// siteObligs emits the `site LABEL: call NAME requires EXPR` obligations of the contract at a matching call.
+func (f *Frame) siteObligs(in *ssa.Call) {
+	g := f.g
+	if !f.top || g.FC == nil || len(g.FC.Sites) == 0 {
+		return
+	}
+	callee := in.Common().StaticCallee()
+	if callee == nil {
+		return
+	}
+	full := fullName(callee)
+	_, short := ContractName(callee)
+	for _, sc := range g.FC.Sites {
+		pat := strings.TrimSpace(strings.TrimPrefix(sc.Pattern, "call "))
+		if !strings.HasPrefix(sc.Pattern, "call ") || sc.E == nil {
+			continue
+		}
+		if pat != short && pat != full && !strings.HasSuffix(full, "."+pat) {
+			continue
+		}
+		env := f.envAt(in.Block(), f.cur, nil)
+		env.upTo = f.instrIdx[in]
+		for i, a := range in.Common().Args {
+			env.bind[fmt.Sprintf("arg%d", i)] = f.val(a)
+		}
+		goal := env.trBool(sc.E)
+		g.siteSeq[sc.Label]++
+		g.addOblig(&Oblig{Name: f.obName("site", &Clause{Label: fmt.Sprintf("%s.%d", sc.Label, g.siteSeq[sc.Label])}, 0), Kind: "site",
+			Goal: implies(f.curReach, goal), Pos: f.pos(in.Pos()), Text: sc.Pattern + " requires " + sc.Text})
+		g.siteHits[sc.Label]++
+	}
 }
